@@ -280,7 +280,8 @@ def gone_verdict(topo, s, ob, modes):
     srv = ob["stmt_at"]
     ob["fate"] = s["fate"]
     if srv is None:
-        ob["kind"], ob["arg"] = "gone_unseen", None
+        # no backend saw the statement: the checkout was refused (or it went into a dead socket, see `unobservable`)
+        ob["kind"], ob["arg"] = "refused", "(client gone; no backend logged the statement)"
         return
     m = modes[srv]
     if m == "hang":
@@ -464,6 +465,13 @@ def random_schedule(rng, topo, nsteps):
         else:
             role = rng.choice(roles)
             s = {"op": "txn", "role": role}
+            y = rng.random()
+            if y < 0.10:
+                s.update({"sql": "SELECT 1 /*mock: sleep=120, close*/", "kill": True})
+            if y < 0.07:
+                s["fate"] = rng.choice(["close", "rst"])
+            elif 0.10 <= y < 0.15:
+                s.update({"sql": "SELECT 1 /*mock: sleep=120*/", "fate": rng.choice(["close", "rst"])})
             if len(topo.shards) > 1:
                 s["shard"] = rng.choice([0, 1])
             hl.append(s)
@@ -549,6 +557,25 @@ def scripted(quick):
           {"op": "admin_raw", "sql": "BAN 127.0.0.99 5"}, {"op": "admin_raw", "sql": "BAN 127.0.0.11 x"}, {"op": "ban", "b": "r1", "secs": 5}, {"op": "ban", "b": "r1", "secs": 50},
           {"op": "showbans"}, {"op": "admin_raw", "sql": "UNBAN 127.0.0.99"}, {"op": "unban", "b": "r1"}, {"op": "unban", "b": "r1"}, {"op": "showbans"}, {"op": "txn", "role": "replica"}]
     out.append(("admin-args", t, hl, None))
+    # in-statement replica fault x fate of the client that sent the statement (stays / closes before the reply /
+    # resets its socket 30 ms after sending).  The ban must not depend on the client: the broken replica is banned in
+    # every case and the next clients are served by the other one.  No health check at checkout (delay 600 s), so the
+    # fault is met at statement time; r1 is un-banned by the admin between rounds so that it can be hit again.
+    KILL = "SELECT 1 /*mock: sleep=120, close*/"
+    SLOWQ = "SELECT 1 /*mock: sleep=120*/"
+    for fault in ("hang", "close_mid_reply", "dies-after-checkout"):
+        for fate in (None, "close", "rst"):
+            for lb in (("random",) if quick else ("random", "loc")):
+                t = Topo([["P", "R", "R"]], hc=False, lb=lb)
+                hl = [] if fault == "dies-after-checkout" else [{"op": "mode", "b": "r1", "mode": fault}]
+                for rnd in range(3 if quick else 6):
+                    x = {"op": "txn", "role": "replica", "sql": KILL if fault == "dies-after-checkout" else SLOWQ}
+                    if fault == "dies-after-checkout":
+                        x["kill"] = True
+                    if fate:
+                        x["fate"] = fate
+                    hl += [x, {"op": "showbans"}, {"op": "txn", "role": "replica"}, {"op": "txn", "role": "replica"}, {"op": "unban", "b": "r1"}, {"op": "unban", "b": "r2"}]
+                out.append(("client-%s-%s-%s" % (fate or "stays", fault, lb), t, hl, None))
     # two shards: bans and the all-banned reset are per shard
     t = Topo([["P", "R", "R"], ["P", "R", "R"]], hc=True)
     hl = [{"op": "mode", "b": "r1", "mode": "down"}, {"op": "mode", "b": "r2", "mode": "down"}] + \
@@ -711,6 +738,15 @@ def run_and_check(run, col, wire, cases, stats, label, workers=16):
                 continue
             ob = st["ob"]
             stats["txn_kinds"][ob["kind"]] = stats["txn_kinds"].get(ob["kind"], 0) + 1
+            fk = "%s/%s" % (s.get("fate", "stays"), ob["arg"] if ob["kind"] == "exec" else ob["kind"])
+            if s.get("fate") or s.get("kill"):
+                stats["client_fates"][fk] = stats["client_fates"].get(fk, 0) + 1
+            if s.get("fate") and ob["kind"] == "refused":
+                # the statement went into a dead socket of a server that had refused connections: nothing to compare
+                fl = st["modes"].get("#flags", {})
+                if any(st["modes"][a["name"]] == "down" or "stale" in fl.get(a["name"], ()) for a in topo.addrs):
+                    stats["unobservable"] += 1
+                    continue
             stats["distinct"].add((topo.key(), s.get("role"), s.get("shard"), tuple(sorted((k, v) for k, v in st["modes"].items() if k != "#flags")), tuple(sorted((b["host"], b["reason"].split("(")[0]) for b in ob["pre"])), ob["kind"]))
             if s.get("observe"):
                 stats["observed"][s["observe"]] = {"client": [ob["kind"], ob["arg"]], "bans_before": brief(ob["pre"]), "bans_after": brief(ob["post"]), "modes": {k: v for k, v in st["modes"].items() if k != "#flags"},
@@ -834,7 +870,7 @@ def check_site(run, col, s, ob, replay, stats):
 
 def new_stats():
     return {"steps": 0, "evaluations": 0, "validated": 0, "set_valued": 0, "allowed_sizes": [], "txn_kinds": {}, "distinct": set(), "monitor_failures": 0, "violations": 0,
-            "harness_errors": 0, "unmodelled": {}, "samples": [], "admin_steps": 0, "unban_events": 0, "silent_failovers": 0, "sites": {}, "observed": {}, "obs_primary_ban_row": 0, "obs_showbans_hides_due": 0}
+            "harness_errors": 0, "unmodelled": {}, "samples": [], "admin_steps": 0, "unban_events": 0, "silent_failovers": 0, "sites": {}, "observed": {}, "client_fates": {}, "unobservable": 0, "obs_primary_ban_row": 0, "obs_showbans_hides_due": 0}
 
 
 def check(run):
@@ -936,6 +972,14 @@ def check(run):
     run.cov["schedules"] = len(cases)
     run.cov["steps_observed"] = stats["steps"]
     run.cov["client_outcomes"] = stats["txn_kinds"]
+    run.cov["client_fate_x_statement_outcome"] = stats["client_fates"]
+    run.cov["unobservable_steps"] = stats["unobservable"]
+    # the RST fate is only meaningful if pgcat's write of the error to that client really fails
+    wf = sum(sum(1 for r in (info["res"].get("task_results") or []) if "Error writing to socket" in r) for info in per_case if "error" not in info)
+    run.cov["client_write_failures_observed"] = wf
+    rst_exec = sum(v for k, v in stats["client_fates"].items() if k.startswith("rst/K"))
+    if rst_exec >= 5 and wf == 0:
+        run.broken.append("%d statements failed on a replica after their client had reset its socket, yet pgcat never failed to write to a client: the RST fate is not exercised" % rst_exec)
     run.cov["silent_failovers_observed"] = stats["silent_failovers"]
     run.cov["unban_events_observed"] = stats["unban_events"]
     run.cov["admin_steps"] = stats["admin_steps"]
